@@ -336,6 +336,18 @@ def h_immut(env, op, spec, n_qubits):
     CU.check_unchanged(env, before, c, f"{op} (function) leaves its input circuit unchanged")
 
 
+def h_mul_one(env, spec, n_qubits):
+    """c * 1 and 1 * c are NEW circuits with the same gates: changing them in place leaves c unchanged"""
+    from tangelo.linq import Gate
+    c, _ = build(env, spec, n_qubits)
+    before = CU.snapshot(c)
+    for nm, d in (("c * 1", c * 1), ("1 * c", 1 * c)):
+        env.check_true(CU.gates_same(CU.gate_tuples(d), before["gates"]) is None, f"{nm} has the gates of c")
+        d.add_gate(Gate("X", 0))
+        d.remove_small_rotations(param_threshold=10.)
+        CU.check_unchanged(env, before, c, f"in-place changes of {nm} leave c unchanged")
+
+
 def h_immut_canary(env, spec, n_qubits):
     """canary for the snapshot comparison: the in-place METHOD is (wrongly) claimed to leave the circuit unchanged"""
     c, _ = build(env, spec, n_qubits)
@@ -584,5 +596,7 @@ def shapes(tier, seed):
     for op in ("remove_small_rotations", "merge_rotations", "remove_redundant_gates", "simplify"):
         add(f"immut/{op}/dense", h_immut, dict(op=op, spec=im, n_qubits=3), policy=dict(mod_range=(-5, 5), threshold="fork"), max_paths=400)
         add(f"immut/{op}/far", h_immut, dict(op=op, spec=im2, n_qubits=None), policy=dict(mod_range=(-5, 5), threshold="fork"), max_paths=400)
+    add("immut/mul-one/dense", h_mul_one, dict(spec=im, n_qubits=3), policy=dict(mod_range=(-5, 5), threshold="fork"), max_paths=400)
+    add("immut/mul-one/far", h_mul_one, dict(spec=im2, n_qubits=None), policy=dict(mod_range=(-5, 5), threshold="fork"), max_paths=400)
     add("canary/immut/trim", h_immut_canary, dict(spec=s1, n_qubits=None), canary=True)
     return out
